@@ -449,7 +449,8 @@ linux_ver_revalidate(kdump_ctx_t *ctx, struct attr_data *attr)
 
 	rel = gattr(ctx, GKI_linux_uts_release);
 	if (!attr_isset(rel))
-		return KDUMP_OK;
+		return set_error(ctx, KDUMP_ERR_NODATA,
+				 "Linux release is not set");
 	status = attr_revalidate(ctx, rel);
 	if (status != KDUMP_OK)
 		return set_error(ctx, status, "Cannot get Linux release");
@@ -492,8 +493,19 @@ linux_ver_post_hook(kdump_ctx_t *ctx, struct attr_data *attr)
 			       ATTR_INVALID, 0);
 }
 
+static void
+linux_ver_clear_hook(kdump_ctx_t *ctx, struct attr_data *attr)
+{
+	struct attr_data *ver = gattr(ctx, GKI_linux_version_code);
+
+	/* The version code must be derived again (or has no source). */
+	if (attr_isset(ver))
+		ver->flags.invalid = 1;
+}
+
 const struct attr_ops linux_ver_ops = {
 	.post_set = linux_ver_post_hook,
+	.pre_clear = linux_ver_clear_hook,
 };
 
 /** Revalidate xen.version_code.
